@@ -30,6 +30,38 @@ from twosigma.memento.serialization import MementoCodec
 from twosigma.memento.types import MementoFunctionType
 
 
+def _stable_repr(o) -> str:
+    """
+    Text representation of a constant or default value that is the same in every process:
+    the elements of sets are sorted (their iteration order depends on hash randomization)
+    and objects without a value-based repr are represented by their type only.
+
+    """
+    if o is None or isinstance(o, (bool, int, float, complex, str, bytes)):
+        return repr(o)
+    if isinstance(o, (set, frozenset)):
+        return "{}({{{}}})".format(
+            type(o).__name__, ", ".join(sorted(_stable_repr(x) for x in o))
+        )
+    if isinstance(o, tuple):
+        if len(o) == 1:
+            return "({},)".format(_stable_repr(o[0]))
+        return "({})".format(", ".join(_stable_repr(x) for x in o))
+    if isinstance(o, list):
+        return "[{}]".format(", ".join(_stable_repr(x) for x in o))
+    if isinstance(o, dict):
+        return "{{{}}}".format(
+            ", ".join(
+                "{}: {}".format(_stable_repr(k), _stable_repr(v)) for (k, v) in o.items()
+            )
+        )
+    if isinstance(o, MementoFunctionType):
+        return "<memento function {}>".format(o.qualified_name_without_version)
+    if o is Ellipsis:
+        return repr(o)
+    return "<{}.{}>".format(type(o).__module__, type(o).__qualname__)
+
+
 def fn_code_hash(fn: Callable, salt: str = None, environment: bytes = None) -> str:
     """
     Compute a hex digest of the code for a function.
@@ -77,7 +109,8 @@ def fn_code_hash(fn: Callable, salt: str = None, environment: bytes = None) -> s
             sha256.update(json.dumps(attr_values, sort_keys=True).encode("utf-8"))
             return sha256.hexdigest()[0:16]
         else:
-            return repr(o)
+            # Note: repr() of a set constant depends on hash randomization
+            return _stable_repr(o)
 
     if isinstance(fn, MementoFunctionType):
         memento_fn = fn  # type: MementoFunctionType
@@ -88,6 +121,24 @@ def fn_code_hash(fn: Callable, salt: str = None, environment: bytes = None) -> s
     if hasattr(fn, "__code__"):
         code = getattr(fn, "__code__")  # type: code
         result = hash_if_code_object(code)
+        # Default parameter values are not part of the code object but they do change what
+        # the function computes.
+        defaults = getattr(fn, "__defaults__", None)
+        kwdefaults = getattr(fn, "__kwdefaults__", None)
+        if defaults or kwdefaults:
+            sha256 = hashlib.sha256()
+            sha256.update(result.encode("utf-8"))
+            sha256.update(
+                json.dumps(
+                    [
+                        [_stable_repr(d) for d in (defaults or ())],
+                        sorted(
+                            [k, _stable_repr(v)] for (k, v) in (kwdefaults or {}).items()
+                        ),
+                    ]
+                ).encode("utf-8")
+            )
+            result = sha256.hexdigest()[0:16]
         return result
     else:
         # If we can't get the code for the function, then return the name of the function
